@@ -536,6 +536,7 @@ impl TypedArrayKind {
 
     /// Convert `value` into the typed array element corresponding to this `TypedArrayKind`,
     /// assuming the `ContentType` of this kind is `Number`.
+    #[cfg_attr(kani, kani::ensures(|r| verif_kani::s_to_element_f64(self, value).is_some_and(|w| verif_kani::same_element(*r, w))))]
     pub(crate) fn to_element_f64(self, value: f64) -> TypedArrayElement {
         match self {
             TypedArrayKind::Int8 => TypedArrayElement::Int8(value as i8),
@@ -593,6 +594,7 @@ impl TypedArrayElement {
     ///
     /// This is guaranteed to never fail, since all numeric types supported by JS are less than
     /// 8 bytes long.
+    #[cfg_attr(kani, kani::ensures(|r| *r == verif_kani::s_to_bits(self)))]
     pub(crate) fn to_bits(self) -> u64 {
         #[allow(clippy::cast_lossless)]
         match self {
@@ -758,3 +760,7 @@ impl From<TypedArrayElement> for JsValue {
 
 #[cfg(test)]
 mod tests;
+
+#[cfg(kani)]
+#[path = "/verif/kani/engine/ta_mod.rs"]
+mod verif_kani;
